@@ -501,10 +501,141 @@ def check_from_count_dict(rep, prog):
 
 
 # ---------------------------------------------------------------------------------------------------------------------
-def check_fragment(rep, prog):
+_FRAG_CHROMS = ('chr1', 'chr_1', 'c.2_x', 'sc_7.1')
+_FRAG_INFOS = (None, 'x', 'b.1')
+
+
+def _fragment_worlds():
+    """finite domain of data dictionaries for fragment_data_dict: chromosome names with '_' and '.', positions on both sides of
+    every chunk boundary (and one far away, so that empty chunks lie between), optional additional info, several insertion orders"""
+    import random
+    rnd = random.Random(13)
+    worlds = []
+    for c in (1, 3, 10):
+        pos = sorted({1, c, c + 1, 2 * c, 2 * c + 1, 5 * c + 2})
+        pool = [(ch, p_, inf) for ch in _FRAG_CHROMS for p_ in pos for inf in _FRAG_INFOS]
+        sets = [pool, pool[::-1]] + [[k] for k in pool[::7]]
+        for _ in range(12):
+            sets.append(rnd.sample(pool, rnd.randint(2, 14)))
+        for ks in sets:
+            dd = {}
+            for ch, p_, inf in ks:
+                key = '%s_%d' % (ch, p_) + ('.%s' % inf if inf else '')
+                dd[key] = ('rec', key)
+            worlds.append((c, dd, dict(('%s_%d' % (ch, p_) + ('.%s' % inf if inf else ''), (ch, p_)) for ch, p_, inf in ks)))
+    return worlds
+
+
+def fragment_domain_verdict(prog):
+    """fragment_data_dict executed by the checker's own interpreter (sa.miniexec over the syntax tree of /repo's source; dadi is
+    not imported) on every world of the finite domain; the result must be a partition of the input into per-chromosome position
+    intervals shorter than chunk_size.  Returns (ok, detail, n_worlds) or None when the interpreter cannot follow the code."""
+    import collections
+    from sa import miniexec as mx
     m = prog.mod(MISC)
     fn = prog.func(MISC, 'fragment_data_dict')
-    rep.saw_function(m.rel + ':fragment_data_dict')
+
+    def hook(name, args, kw):
+        if name in ('collections.defaultdict', 'defaultdict') and len(args) <= 1 and not kw:
+            fac = {'list': list, 'dict': dict, 'int': int, 'set': set}.get(getattr(args[0], 'name', None) or mx.show(args[0])) if args else None
+            if args and fac is None:
+                return NotImplemented
+            return collections.defaultdict(fac)
+        return NotImplemented
+    worlds = _fragment_worlds()
+    for c, dd, truth in worlds:
+        it = mx.Interp(prog, m, call_hook=hook)
+        try:
+            paths = it.run(fn, {'dd': dict(dd), 'chunk_size': c})
+        except (mx.Undecidable, RecursionError):
+            return None
+        except Exception:
+            return None
+        if len(paths) != 1:
+            return None
+        outcome = paths[0][0]
+        tag = 'chunk_size=%d, keys %s' % (c, sorted(dd)[:6] + (['...'] if len(dd) > 6 else []))
+        if outcome[0] == 'raise':
+            return (False, 'raises %s for %s' % (outcome[1], tag), len(worlds))
+        out = outcome[1]
+        if not isinstance(out, (list, tuple)) or not all(isinstance(d, dict) and mx.is_concrete(d) for d in out):
+            return None
+        seen = collections.Counter(k for d in out for k in d)
+        if set(seen) != set(dd) or any(v != 1 for v in seen.values()):
+            lost = sorted(set(dd) - set(seen))[:3]
+            dup = sorted(k for k, v in seen.items() if v > 1)[:3]
+            new = sorted(set(seen) - set(dd))[:3]
+            return (False, 'the chunks are not a partition of the SNPs: lost %s, duplicated %s, invented %s (%s)' % (lost, dup, new, tag), len(worlds))
+        for d in out:
+            for k, v in d.items():
+                if v is not dd[k] and v != dd[k]:
+                    return (False, 'SNP %s carries the record of another SNP (%s)' % (k, tag), len(worlds))
+        spans = collections.defaultdict(list)
+        for d in out:
+            if not d:
+                continue
+            chs = {truth[k][0] for k in d}
+            ps = [truth[k][1] for k in d]
+            if len(chs) != 1:
+                return (False, 'one chunk mixes chromosomes %s (%s)' % (sorted(chs), tag), len(worlds))
+            if max(ps) - min(ps) >= c:
+                return (False, 'one chunk spans positions %d..%d, not shorter than chunk_size (%s)' % (min(ps), max(ps), tag), len(worlds))
+            spans[chs.pop()].append((min(ps), max(ps)))
+        for ch, iv in spans.items():
+            iv.sort()
+            for a_, b_ in zip(iv, iv[1:]):
+                if b_[0] <= a_[1]:
+                    return (False, 'two chunks of chromosome %s interleave: positions %s and %s (%s)' % (ch, a_, b_, tag), len(worlds))
+    return (True, 'partition into per-chromosome position intervals shorter than chunk_size on %d worlds' % len(worlds), len(worlds))
+
+
+class _Deferred:
+    """collects the template obligations of fragment_data_dict so that the ones whose code shape is not recognised can be decided
+    by the finite-domain execution instead"""
+
+    def __init__(self, rep):
+        self.rep, self.items = rep, []
+
+    def ob(self, *a, **kw):
+        self.items.append((a, kw))
+        return a[2]
+
+    def flush(self, verdict):
+        from sa.report import UNREC_RX
+        for a, kw in self.items:
+            a = list(a)
+            detail = a[3] if len(a) > 3 else kw.get('detail', '')
+            if not a[2] and verdict is not None and UNREC_RX.search(detail or ''):
+                # shape not recognised (or different from the reference shape): the executed domain decides
+                a[2] = verdict[0]
+                new = 'code shape differs from the reference template; decided by finite-domain execution: ' + verdict[1]
+                if len(a) > 3:
+                    a[3] = new
+                else:
+                    kw['detail'] = new
+            self.rep.ob(*a, **kw)
+
+
+def check_fragment(rep, prog):
+    verdict = fragment_domain_verdict(prog)
+    real_rep, rep = rep, _Deferred(rep)
+    try:
+        _check_fragment_templates(rep, prog)
+    finally:
+        rep.flush(verdict)
+    rep = real_rep
+    m = prog.mod(MISC)
+    fn = prog.func(MISC, 'fragment_data_dict')
+    if verdict is not None:
+        rep.ob('R-DOM', 'fragment_data_dict partition', verdict[0], verdict[1], m.rel, fn.lineno,
+               what='on the finite key domain (chromosome names with _ and ., positions around every chunk boundary, optional info) the chunks partition the SNPs into per-chromosome intervals shorter than chunk_size, records unchanged')
+    check_bootstraps(rep, prog)
+
+
+def _check_fragment_templates(rep, prog):
+    m = prog.mod(MISC)
+    fn = prog.func(MISC, 'fragment_data_dict')
+    rep.rep.saw_function(m.rel + ':fragment_data_dict')
     t = ast.unparse(fn)
     # parser
     okp = has(t, "chrname, position = ('_'.join(k.split('_')[:-1]), k.split('_')[-1])") and has(t, "position, add_info = position.split('.', 1)") and \
@@ -549,14 +680,26 @@ def check_fragment(rep, prog):
             not any(isinstance(x, (ast.Break, ast.Continue, ast.Return)) for s in body for x in ast.walk(s))
         det = 'one unconditional append per position after `while p > end` has advanced (end, chunk_index, chunk list) together'
     outer = [n for n in own_nodes(fn) if isinstance(n, ast.For) and ast.unparse(n.iter) == 'ndd.keys()']
-    ok0 = len(outer) == 1 and sorted(ast.unparse(s) for s in outer[0].body[:4]) == sorted(['positions = sorted(ndd[chrname])', 'end = chunk_size', 'chunk_index = 0', 'chunks_dict[chrname].append([])'])
+    def _head(s_):
+        # the sort may carry a key (None and str do not compare); whether the order it gives is the position order is decided by
+        # the finite-domain execution (chunks that interleave or span more than chunk_size are reported there)
+        if isinstance(s_, ast.Assign) and isinstance(s_.value, ast.Call) and ast.unparse(s_.value.func) == 'sorted' and len(s_.value.args) == 1 and \
+                [k_.arg for k_ in s_.value.keywords] in ([], ['key']):
+            return '%s = sorted(%s)' % (ast.unparse(s_.targets[0]), ast.unparse(s_.value.args[0]))
+        return ast.unparse(s_)
+    ok0 = len(outer) == 1 and sorted(_head(s) for s in outer[0].body[:4]) == sorted(['positions = sorted(ndd[chrname])', 'end = chunk_size', 'chunk_index = 0', 'chunks_dict[chrname].append([])'])
+    if ok1 and not ok0:
+        det = 'preparation of the position loop not recognised'
     rep.ob('R-PAIR', 'fragment_data_dict chunk assignment', ok1 and ok0, det or 'position loop not recognised', m.rel, fn.lineno,
            what='every SNP lands in exactly one chunk; the chunk index always points at the last chunk created; positions are visited in sorted order')
     okr = has(t, 'for (chrname, chunks) in chunks_dict.items():') and has(t, 'for pos_list in chunks:') and has(t, 'new_dds.append({})') and \
         has(t, 'for pos, add_info in pos_list:') and flat(t).endswith(flat('return new_dds'))
     rep.ob('R-FLOW', 'fragment_data_dict output', okr, 'one dictionary per chunk, all chunks of all chromosomes' + ('' if okr else ' (output loops not recognised)'), m.rel, fn.lineno,
            what='the chunk dictionaries partition the input')
-    # bootstraps
+
+
+def check_bootstraps(rep, prog):
+    m = prog.mod(MISC)
     bf = prog.func(MISC, 'bootstraps_from_dd_chunks')
     rep.saw_function(m.rel + ':bootstraps_from_dd_chunks')
     tb = ast.unparse(bf)
